@@ -43,7 +43,7 @@ Proof.
 Qed.
 
 (* ---------------- vault ---------------- *)
-Definition vault_bt (v : vault_site) : Z := if vs_bh v =? 0 then vs_pair_bt v else vs_bt v.
+Definition vault_bt (v : vault_site) : Z := if (vs_bh v =? 0) || (vs_bt v <? vs_pair_bt v) then vs_pair_bt v else vs_bt v.
 
 Lemma vault_interest_spec pow now v x p t' r' :
   vault_interest pow now v = Ok (Updated x p t' r') ->
